@@ -5,7 +5,8 @@ ID=$1; PATCH=$2; TIER=${3:-quick}
 cd /repo || exit 9
 if ! git diff --quiet; then echo "repo dirty"; exit 9; fi
 if ! git apply --3way "$PATCH" 2>/tmp/try_seed_apply.err; then
-  if ! git apply "$PATCH"; then echo "PATCH DOES NOT APPLY"; cat /tmp/try_seed_apply.err; git checkout -- . ; exit 8; fi
+  git reset -q --hard HEAD
+  if ! patch -p1 --fuzz=3 -l -s < "$PATCH"; then echo "PATCH DOES NOT APPLY"; git reset -q --hard HEAD; git clean -fdq; exit 8; fi
 fi
 git reset -q   # unstage what --3way staged
 cd /verif && ./check "$ID" "$TIER" 2>&1 | grep -v "^  violation" | tail -${LINES_OUT:-8}
